@@ -221,6 +221,7 @@ extern "C" void yk_thread(std::uint32_t i, void (*fn)()) {
         if (i + 1 > g_nthr) g_nthr = i + 1;
     }
 }
+extern "C" void yk_allow_ctx(std::uint32_t, std::uint32_t) {}
 extern "C" std::uint32_t yk_thread_done(std::uint32_t i) { return i < 8 && g_thr_done[i] ? 1 : 0; }
 extern "C" std::uint32_t yk_ctx_of_finish(std::uint32_t i) { return i < 8 ? g_fin_ctx[i] : 0; }
 extern "C" void yk_run_threads(std::uint32_t) {
